@@ -4,6 +4,7 @@ package main
 // evidence, print VIOLATION / KNOWN-FINDING lines.
 
 import (
+	"sync"
 	"encoding/json"
 	"fmt"
 	"os"
@@ -450,24 +451,38 @@ func (vc *VC) evalEntry(text string) (string, error) {
 
 // crossCheck: thorough tier — every proved obligation is confirmed by a second solver where one decides it.
 func (r *checkRun) crossCheck(timeout int) {
+	// every discharged obligation is re-run on the solvers that did not decide it first (16 at a time, 15 s each):
+	// a second solver finding a model is a disagreement and fails the run; a second proof is recorded
+	if timeout > 15 {
+		timeout = 15
+	}
+	var wg sync.WaitGroup
+	sem := make(chan struct{}, 16)
 	for _, o := range r.obls {
 		if o.Result == nil || o.Result.Status != "unsat" {
 			continue
 		}
-		var others []string
-		for _, s := range solvers {
-			if s.name != o.Result.Solver {
-				others = append(others, s.name)
+		wg.Add(1)
+		go func(o *Obligation) {
+			defer wg.Done()
+			sem <- struct{}{}
+			defer func() { <-sem }()
+			var others []string
+			for _, s := range solvers {
+				if s.name != o.Result.Solver {
+					others = append(others, s.name)
+				}
 			}
-		}
-		res := Solve(o.Query, timeout, others, false)
-		if res.Status == "sat" {
-			o.Result.Status = "error"
-			o.Result.Output = fmt.Sprintf("SOLVER DISAGREEMENT: %s proved, %s found a model", o.Result.Solver, res.Solver)
-		} else if res.Status == "unsat" {
-			o.Confirmed = res.Solver
-		}
+			res := Solve(o.Query, timeout, others, false)
+			if res.Status == "sat" {
+				o.Result.Status = "error"
+				o.Result.Output = fmt.Sprintf("SOLVER DISAGREEMENT: %s proved, %s found a model", o.Result.Solver, res.Solver)
+			} else if res.Status == "unsat" {
+				o.Confirmed = res.Solver
+			}
+		}(o)
 	}
+	wg.Wait()
 }
 
 func (r *checkRun) report() int {
